@@ -272,10 +272,10 @@ func (t *TopKRedis) compareHeaps(key string) (bool, error) {
 		local key1 = KEYS[1]
 		local key2 = KEYS[2]
 		local size = ARGV[1]
-		local vals1 = redis.pcall('ZRANGE', key1, 0, -1)
-		local vals2 = redis.pcall('ZRANGE', key2, 0, -1)
-		for i=1, tonumber(size) do
-			if tonumber(vals1[i]) ~= tonumber(vals2[i]) then
+		local vals1 = redis.pcall('ZRANGE', key1, 0, -1, 'WITHSCORES')
+		local vals2 = redis.pcall('ZRANGE', key2, 0, -1, 'WITHSCORES')
+		for i=1, 2*tonumber(size) do
+			if vals1[i] ~= vals2[i] then
 				return false
 			end
 		end
